@@ -257,7 +257,7 @@ pub fn check_trace(r: &mut Report, kinds: &[(&str, Vec<u8>)], trace: &[usize], c
 
 /// link-layer framings, incl. Ethernet frames whose MAC addresses another framing would also accept (raw IPv4 / IPv6
 /// header, NULL/loopback header of either family): every analyzer has its own copy of the frame parser
-pub const FRAMINGS: [&str; 10] = ["ethernet", "loopback-1e", "macs-like-ipv4-header", "macs-like-ipv6-header", "macs-like-loopback-1e-then-ipv4", "macs-like-loopback-1e-then-ipv6", "macs-like-loopback-02", "macs-like-loopback-18", "vlan-8100", "vlan-88a8"];
+pub const FRAMINGS: [&str; 11] = ["ethernet", "loopback-1e", "macs-like-ipv4-header", "macs-like-ipv6-header", "macs-like-loopback-1e-then-ipv4", "macs-like-loopback-1e-then-ipv6", "macs-like-loopback-02", "macs-like-loopback-18", "vlan-8100", "vlan-88a8", "ethernet-padded-with-frame-check-sequence"];
 fn reframe(framing: usize, ip: &[u8]) -> Vec<u8> {
     let macs: Option<[u8; 12]> = match framing {
         2 => Some([0x45, 0, 0, 0x28, 0, 0, 0x40, 0, 0x40, 0x06, 0, 0]),
@@ -272,6 +272,7 @@ fn reframe(framing: usize, ip: &[u8]) -> Vec<u8> {
         (1, _) => pkt::frame(Link::Null(0x1e), ip),
         (8, _) => pkt::frame(Link::Vlan(0x8100), ip),
         (9, _) => pkt::frame(Link::Vlan(0x88a8), ip),
+        (10, _) => pkt::ethernet_with_trailer(ip),
         (_, Some(m)) => {
             let mut f = pkt::frame(Link::Ethernet, ip);
             f[..12].copy_from_slice(&m);
@@ -416,7 +417,7 @@ pub fn run(thorough: bool) -> Outcome {
     });
     Outcome {
         report: rep,
-        rule: "every trace of <= 4 packets (5 thorough) over 22 packet kinds (SYN/SYN+ACK/ACK with timestamps, HTTP request with, without and with an empty / blank User-Agent, HTTP response, ClientHello whole and in two parts, FIN+RST, no flags, IPv4 fragment, UDP, truncated frame, Ethernet-framed IPv6 SYN), every trace of <= 3 packets within each of 10 framings, every trace of <= 4 timestamped segments of both directions (IPv4 and IPv6, TSvals whose uptime has different days / hours / minutes) ; every trace of <= 4 packets over the two halves of a request whose second segment is byte for byte a complete ClientHello followed by the blank line (both protocol analyzers report on it), the SYN and an ordinary request; x 16 switch combinations x with/without database, unified analyzer vs stand-alone TCP / HTTP / stateless TLS processors in lock step under the injected clock; distinct = distinct unified outcomes".into(),
+        rule: "every trace of <= 4 packets (5 thorough) over 22 packet kinds (SYN/SYN+ACK/ACK with timestamps, HTTP request with, without and with an empty / blank User-Agent, HTTP response, ClientHello whole and in two parts, FIN+RST, no flags, IPv4 fragment, UDP, truncated frame, Ethernet-framed IPv6 SYN), every trace of <= 3 packets within each of 11 framings (incl. Ethernet padded to 60 bytes with a captured frame check sequence), every trace of <= 4 timestamped segments of both directions (IPv4 and IPv6, TSvals whose uptime has different days / hours / minutes) ; every trace of <= 4 packets over the two halves of a request whose second segment is byte for byte a complete ClientHello followed by the blank line (both protocol analyzers report on it), the SYN and an ordinary request; x 16 switch combinations x with/without database, unified analyzer vs stand-alone TCP / HTTP / stateless TLS processors in lock step under the injected clock; distinct = distinct unified outcomes".into(),
         exhaustive: true,
         bounds: json!({"traces": traces.len(), "configurations": cfgs.len(), "max_depth": depth}),
     }
